@@ -1,10 +1,24 @@
 from .. import facts
 from ..common import Report, finish
-from ..rules import carry
+from ..rules import carry, c06, c15
+from .. import flow, mir
 
 RULE = ("the carry / borrow returned by every adc / sbb / mac / carrying_* / conditional_adc / conditional_sbb / "
         "overflowing_add / overflowing_sub call in the crate is consumed, or is dropped in a wrapping_* form (by "
         "definition) or at a reviewed site with a stated reason")
+
+
+ARITH = {"add", "sub", "neg", "mul", "square"}
+
+
+def _arith_scope(b, view):
+    """routines of the add / sub / neg / mul families, or any body that runs a carry chain"""
+    if c15.family(b.get("name")) in ARITH:
+        return True
+    for bi, t in view.calls():
+        if not view.blocks[bi]["cleanup"] and carry.CARRY.match(mir.last_seg(mir.callee_decl(t)) or ""):
+            return True
+    return False
 
 
 def run(tier, t0):
@@ -13,11 +27,17 @@ def run(tier, t0):
         f = facts.load(cfg)
         carry.run(f, rep, cfg, scope_prefix=None, exclude_prefix=("modular::", "<modular::"), table="c04.toml", auto_wrapping=True,
                   counter="carry_returning_calls_outside_modular")
+        eng = flow.Engine(f, flow.Policy())
+        eng.run_all(collect=False)
+        c06.run_zip(f, rep, cfg, eng, scope=_arith_scope, prefix="c04.zip", counter="mixed_width_arithmetic_bodies",
+                    require_eq=True, what="arithmetic routine")
     stale = {}
     for s in rep.stale:
         stale.setdefault(s["key"], set()).add(s["config"])
     rep.stale = sorted(k for k, v in stale.items() if len(v) == 2)
     rep.floor("carry_returning_calls_outside_modular", 230)
+    rep.floor("mixed_width_arithmetic_bodies", 10)
+    rep.floor("zip_call_bodies_positive_control", 3)
     return finish(rep, tier, t0,
                   explanation="one structural clause of C04 (and of the multi-limb parts of C03/C07): a carry that is computed "
                               "and silently dropped. That the consumed carries are combined correctly, and every value-level "
